@@ -170,6 +170,13 @@ def _emit_all(buf, results, use_with, poison=(), abort=None):
                 else:
                     raise PoisonAccepted()
             contract = mk_contract(r)
+            if i % 2:
+                # the documented positional order: board id, West, North, East, South, dealer, deal, scoring, calls,
+                # contract, play, tricks, scores, double-dummy table
+                w.write(r['board_id'], r['players'][3], r['players'][0], r['players'][1], r['players'][2], be.SEAT[r['dealer']],
+                        be.hands_from_owner(r['owner']), Scoring[r['scoring']], [be.BID[c] for c in r['auction']], contract,
+                        mk_history(r, contract), r['tricks'], {be.PAIR[0]: r['scores'][0], be.PAIR[1]: r['scores'][1]}, mk_dda(r['dda']))
+                continue
             w.write(board_id=r['board_id'], west_player=r['players'][3], north_player=r['players'][0],
                     east_player=r['players'][1], south_player=r['players'][2], dealer=be.SEAT[r['dealer']],
                     deal=be.hands_from_owner(r['owner']), scoring=Scoring[r['scoring']],
@@ -283,6 +290,8 @@ def check_document(results, use_with, stats=None, medium='stringio', poison=(), 
     if stats is not None:
         stats.evaluated()
         stats.cls(f'medium: {medium}')
+        if any(a == b for a, b in zip(results, results[1:])):
+            stats.cls('documents with the same result twice in a row')
         stats.cls(f'documents with {min(len(results), 3)}{"+" if len(results) >= 3 else ""} results')
         po = any(r['contract'] is None or r['contract'] == 'Pass' for r in results)
         played = any(r['contract'] not in (None, 'Pass') and r['play'] and r['dda'] is not None for r in results)
@@ -297,7 +306,9 @@ def check_document(results, use_with, stats=None, medium='stringio', poison=(), 
 def fuzz_target(name, stats):
     """(test function, strategies) - shared by the in-process Hypothesis tier and the atheris tier."""
     return (lambda results, use_with, medium, poison, abort: check_document(results, use_with, stats, medium, poison, abort),
-            {'results': st.lists(GB.result(st.text(max_size=12)), min_size=0, max_size=8), 'use_with': st.booleans(),
+            {'results': st.tuples(st.lists(GB.result(st.text(max_size=12)), min_size=0, max_size=8), st.one_of(st.none(), st.none(), st.integers(0, 7)))
+                .map(lambda t: t[0] if t[1] is None or not t[0] else t[0][:t[1] % len(t[0]) + 1] + t[0][t[1] % len(t[0]):]),     # sometimes the same result twice in a row
+             'use_with': st.booleans(),
              'medium': st.sampled_from(MEDIA), 'poison': st.one_of(st.just([]), st.just([]), st.lists(st.integers(0, 7), max_size=2)),
              'abort': st.one_of(st.none(), st.none(), st.none(), st.tuples(st.integers(0, 6), st.sampled_from(sorted(ABORTS))))})
 
